@@ -78,6 +78,8 @@ pub trait Kind: Function + Sized + 'static {
     fn set_var_order<'id>(m: &mut Self::Manager<'id>, req: &[u32]);
     /// set the split depth of the worker pool (None = automatic)
     fn set_split_depth<'id>(m: &Self::Manager<'id>, depth: Option<u32>);
+    /// DDDMP export of `roots` into a buffer (ASCII or binary-if-supported); returns the size
+    fn dddmp_export(mref: &Self::ManagerRef, roots: &[&Self], ascii: bool) -> Result<usize, String>;
     fn order<'id>(m: &Self::Manager<'id>) -> (Vec<u32>, Vec<u32>) {
         let n = m.num_levels();
         let l2v = (0..n).map(|l| m.level_to_var(l)).collect();
@@ -109,6 +111,22 @@ macro_rules! impl_kind {
             fn set_split_depth<'id>(m: &Self::Manager<'id>, depth: Option<u32>) {
                 use oxidd::{HasWorkers, WorkerPool};
                 m.workers().set_split_depth(depth)
+            }
+            fn dddmp_export(mref: &Self::ManagerRef, roots: &[&Self], ascii: bool) -> Result<usize, String> {
+                use oxidd::ManagerRef;
+                let mut buf: Vec<u8> = Vec::new();
+                let r = crate::util::catch(|| {
+                    mref.with_manager_shared(|m| {
+                        let st = oxidd_dump::dddmp::ExportSettings::default();
+                        let st = if ascii { st.ascii() } else { st.binary() };
+                        st.export(&mut buf, m, roots.iter().copied())
+                    })
+                });
+                match r {
+                    Ok(Ok(())) => Ok(buf.len()),
+                    Ok(Err(e)) => Err(format!("io: {e}")),
+                    Err(p) => Err(format!("panic: {p}")),
+                }
             }
             fn snapshot<'id>(m: &Self::Manager<'id>) -> Vec<NodeRec> {
                 let mut out = Vec::new();
